@@ -48,7 +48,7 @@ func genNestLocals(thorough bool) Gen {
 		k := ks[lv-1]
 		iv := fmt.Sprintf("i%d", lv)
 		var body []Stat
-		if k == "while" || k == "repeat" {
+		if k == "while" || k == "repeat" || nestIsGoto(k) {
 			body = append(body, Assign1(Name(iv), Bin("+", Name(iv), Num(1))))
 		}
 		body = append(body, Local1("a", Str(fmt.Sprintf("a%d", lv))), Local1(fmt.Sprintf("b%d", lv), Bin("..", Name("a"), Str("+"))))
@@ -61,6 +61,16 @@ func genNestLocals(thorough bool) Gen {
 			return []Stat{Local1(iv, Num(0)), While(Bin("<", Name(iv), Num(2)), body...)}
 		case "repeat":
 			return []Stat{Local1(iv, Num(0)), Repeat(Bin(">=", Name(iv), Num(2)), body...)}
+		case "gotoloop", "gotoloopL":
+			// a loop made of a label and a backward goto: the locals behind the label end at the goto
+			st := []Stat{Local1(iv, Num(0))}
+			if k == "gotoloopL" {
+				st = append(st, Local1(fmt.Sprintf("g%d", lv), Str("before-label")))
+			}
+			st = append(st, Label(fmt.Sprintf("top%d", lv)))
+			st = append(st, body...)
+			st = append(st, If(Bin("<", Name(iv), Num(2)), Goto(fmt.Sprintf("top%d", lv))))
+			return []Stat{Do(st...)}
 		case "numfor":
 			return []Stat{NumFor(iv, Num(1), Num(2), nil, body...)}
 		case "genfor":
